@@ -1,2 +1,280 @@
-(* Property C15 - statements only (proofs in Proofs/C15.v). Not built yet. *)
-From SC.Model Require Import Base.
+(* Property C15 - printed results can be typed back in: formatter and reader agree.
+   STATEMENTS ONLY (proofs: Proofs/C15.v).
+
+   Model functions: Run64.exec64 (the whole pipeline, Api.execute at binary64 with the regenerated data),
+   Format.item_print / date_print / duration_formatter / dur_parts, RuleFns.duration_of_const / combine_durations /
+   read_currency, Lexer.from_radix, the regenerated tables d_format, d_constant_pair, d_word_group, d_months,
+   d_types_raw, d_timezones, d_currency, d_currency_alias.
+   Notions of Proofs/C15.v:
+     enter ck cfg lang line        the printed text and the value of a one-line evaluation (None: no value)
+     Reprintable ck cfg lang line  THE PROPERTY for one line: whatever the line prints is not empty and, entered as a
+                                   new line under the same configuration, language and clock, prints the same text
+     Reprintable_value ..          ... and the value behind the re-entered text is the same value
+     prints / reprints / refutes   the executable tests (sound: C15_tests_sound)
+     CK15, DC, cfg_seps d t, cfg_num c n rm rnd   clock 2024-10-04, the default configuration, separators, digit settings
+
+   WHAT IS PROVED AND WHAT IS NOT (C15_full_partial).  The full statement `forall ck cfg lang line, Reprintable ..`
+   is FALSE in the faithful model (and in the crate): ten mechanisms, listed as known findings C15-K1 .. C15-K10 and
+   pinned here by C15_refuted / C15_refuted_outputs / C15_twelve_months_refuted / C15_currency_partition.
+   Proved: (a) finite tables over the regenerated data: every duration word, month word, unit word, zone name and
+   currency symbol the printers can emit, re-read (C15_words_*, C15_zone_*, C15_currency_*, C15_units_pipeline);
+   (b) unbounded components: based integers (C15_based), durations (C15_duration, C15_duration_recombine,
+   C15_twelve_months_iff); (c) the whole pipeline on finite families of every kind x en/tr x the four lexable
+   separator conventions x ten digit settings (C15_pipeline).  (d) numbers: the reader on the printer's output, unbounded at the digit-string level (C15_number_shape,
+   C15_number_normalises), re-printing under the hypothesis of equal rendering (C15_number_same_rendering), which is
+   discharged by computation on a binary64 family (C15_number_idempotent_family).  NOT proved: Reprintable for every value of a kind -
+   the lexing of the composed printed string for arbitrary values (interaction of the regexes on arbitrary digits)
+   and the idempotence of decimal printing on binary64 are covered by the correspondence check only
+   (tools/props/C15.py: every generated value is printed, re-entered and compared on the crate and on this model). *)
+From Coq Require Import Floats.
+From SC.Model Require Import Base Num NumF64 FloatIO Types Config Case Chrono Parser Items RuleFns Format Lexer Api Run64 Corr.
+From SC.Spec Require Import Calendar Duration.
+From SC.Gen Require Import RustConsts ConfigData.
+From SC.Proofs Require Import C08 C10 C13 C15.
+Local Open Scope Z_scope.
+
+(* ---- the executable tests decide the property of a line *)
+Theorem C15_tests_sound : forall ck cfg lang line,
+  (reprints ck cfg lang line = true -> prints ck cfg lang line = true /\ Reprintable ck cfg lang line) /\
+  (reprints_value ck cfg lang line = true -> prints ck cfg lang line = true /\ Reprintable_value ck cfg lang line) /\
+  (refutes ck cfg lang line = true -> ~ Reprintable ck cfg lang line) /\
+  (Reprintable_value ck cfg lang line -> Reprintable ck cfg lang line).
+Proof.
+  intros. split; [apply reprints_sound|]. split; [apply reprints_value_sound|]. split; [apply refutes_sound|apply value_implies_text].
+Qed.
+
+(* ---- words (finite tables, regenerated from config.json) ---- *)
+
+(* every row of languages.*.format.duration (en: 14 rows, tr: 7) has the shape `{unit} word` or `1 word`, and its word
+   is a keyword of the SAME unit in the language's constant table and a member of duration_group, the word group of
+   the rule `{NUMBER:duration} {GROUP:type:duration_group}`: the printed part re-lexes to the unit it was printed for *)
+Theorem C15_words_durations : forall lang fmt f, In lang [EN; TR] ->
+  assoc lang d_format = Some fmt -> In f (lf_duration fmt) ->
+  exists cs gs ws,
+    assoc lang d_constant_pair = Some cs /\ assoc lang d_word_group = Some gs /\
+    assoc (s "duration_group") gs = Some ws /\
+    assoc (row_word f) cs = Some (kind_const (df_kind f)) /\ mem_str (row_word f) ws = true /\ row_word f <> [] /\
+    (df_format f = dur_placeholder (df_kind f) ++ 32%N :: row_word f \/ df_format f = s "1 " ++ row_word f).
+Proof. exact duration_words. Qed.
+
+(* every unit (33 rows): the format is `{value}` + optional blank + word; the word lower-cased is one of the unit's
+   names and the type word of one of its parse patterns.  No row is outside: all 33 format words are re-readable *)
+Theorem C15_words_units : length all_unit_rows = 33%nat /\
+  forall g r, In (g, r) all_unit_rows ->
+  exists w, unit_word r = Some w /\ w <> [] /\ mem_str (to_lowercase w) (ur_names r) = true /\
+            mem_str (s "{NUMBER:value} {TEXT:type:" ++ to_lowercase w ++ s "}") (ur_parse r) = true.
+Proof. exact (conj unit_rows_count unit_words). Qed.
+
+(* every month of en and tr: what date_print writes for the 5th of the month (uppercase-first of the long name in
+   the clock's year, of the short name with the year otherwise; `5 Şub 2020`) is read back as that very day and
+   printed identically *)
+Theorem C15_words_months : forall lang mi, In lang [EN; TR] -> In mi (month_rows lang) ->
+  let m := mi_month mi in
+  let l1 := s "5 " ++ uppercase_first_letter (mi_long mi) in
+  let l2 := s "5 " ++ uppercase_first_letter (mi_short mi) ++ s " 2020" in
+  date_print DC lang (ck_year CK15) (days_from_civil (ck_year CK15) m 5) (cf_tz DC) = l1 /\
+  date_print DC lang (ck_year CK15) (days_from_civil 2020 m 5) (cf_tz DC) = l2 /\
+  (exists tz, enter CK15 DC lang l1 = Some (l1, Some (TDate (days_from_civil (ck_year CK15) m 5) tz))) /\
+  (exists tz, enter CK15 DC lang l2 = Some (l2, Some (TDate (days_from_civil 2020 m 5) tz))).
+Proof. exact month_words. Qed.
+
+Theorem C15_words_months_size : length (month_rows EN) = 12%nat /\ length (month_rows TR) = 12%nat.
+Proof. vm_compute. split; reflexivity. Qed.
+
+(* every zone name of the table (191): `10:30 Z` prints a text that prints itself again with the same value ... *)
+Theorem C15_zone_words : forall n o, In (n, o) d_timezones ->
+  Reprintable_value CK15 DC EN (s "10:30 " ++ n) /\ prints CK15 DC EN (s "10:30 " ++ n) = true.
+Proof. exact zone_words. Qed.
+
+(* ... for 174 of them the value is the time in that zone and the text is `10:30:00 Z` (the others are longer than
+   the zone regex's [A-Z]{2,4}, or lexed as a currency code) *)
+Theorem C15_zone_times :
+  (forall n o, zone_time (n, o) = true ->
+     exists t, enter CK15 DC EN (s "10:30 " ++ n)
+               = Some (s "10:30:00 " ++ n, Some (TTime t {| tz_name := n; tz_off := o |}))) /\
+  length (filter zone_time d_timezones) = 174%nat /\ length d_timezones = 191%nat.
+Proof. exact (conj zone_times (proj2 zone_rows_ok)). Qed.
+
+(* the 161 currencies, partitioned: reader_name c = the name the money regexes capture from what money_print writes
+   for c (spec side); reads_as = read_currency on it.  The pipeline agrees with the partition on every row:
+   re-read as the same amount of the same currency exactly for the 6 rows whose symbol is their own reader name;
+   the same TEXT again exactly for the 24 rows that print like one of those (18 print like USD) - known findings
+   C15-K3 (125 rows: no reader name) and C15-K4 (another currency's name) *)
+Theorem C15_currency_partition : forall kv, In kv d_currency ->
+  prints CK15 DC EN (money_line kv) = true /\
+  (rereadable kv = true -> Reprintable_value CK15 DC EN (money_line kv)) /\
+  (prints_like_rereadable kv = true -> Reprintable CK15 DC EN (money_line kv)) /\
+  (prints_like_rereadable kv = false -> ~ Reprintable CK15 DC EN (money_line kv)).
+Proof. exact currency_partition. Qed.
+
+Theorem C15_currency_partition_lists :
+  map fst (filter rereadable d_currency) = [s "dkk"; s "eur"; s "mvr"; s "tjs"; s "try"; s "usd"] /\
+  length d_currency = 161%nat /\
+  length (filter prints_like_rereadable d_currency) = 24%nat /\
+  length (filter (fun kv => match reads_as (snd kv) with None => true | Some _ => false end) d_currency) = 125%nat.
+Proof. exact currency_partition_lists. Qed.
+
+(* every unit x every name a parse pattern carries (61 lines), four separator conventions, en and tr *)
+Theorem C15_units_pipeline :
+  (forall l, In l (unit_lines (s ",")) ->
+     Reprintable_value CK15 DC EN l /\ is_unit (enter CK15 DC EN l) = true) /\
+  (forall l, In l (unit_lines (s ".")) ->
+     Reprintable_value CK15 (cfg_seps (s ".") (s ",")) EN l /\ Reprintable_value CK15 (cfg_seps (s ".") []) TR l) /\
+  (forall l, In l (unit_lines (s ",")) -> Reprintable_value CK15 (cfg_seps (s ",") []) TR l) /\
+  length (unit_lines (s ",")) = 61%nat.
+Proof. exact unit_lines_reprintable. Qed.
+
+(* ---- based integers: print, read the digits, print again - the same text (composition of C13_print_read and
+        C13_print_based; every number algebra, every non-negative value exact after the cast) ---- *)
+Theorem C15_based : forall {F : Type} {NF : Num F} cfg lang year (x : F) t, based t -> 0 <= as_i64 x ->
+  as_i64 (fofZ (as_i64 x) : F) = as_i64 x ->
+  exists ds y,
+    item_print cfg lang year (INumber x t) = Ok (prefix_of t ++ ds) /\
+    from_radix (base_of t) ds = Some y /\
+    item_print cfg lang year (INumber y t) = Ok (prefix_of t ++ ds).
+Proof. intros F NF. exact based_roundtrip. Qed.
+
+(* ---- durations, UNBOUNDED: every part the greedy printer writes, re-read by the duration rule (word -> constant of
+        the same unit by C15_words_durations), denotes count * unit length, and the parts sum to the magnitude -
+        for every duration chrono can hold whose month count is below 12 ---- *)
+Theorem C15_duration : forall secs, in_range secs ->
+  (forall c, In (DMonth, c) (dur_parts secs) -> c < 12) ->
+  Forall (fun p => reread_part p = Some (part_secs p)) (dur_parts secs) /\
+  parts_sum (dur_parts secs) = Z.abs secs.
+Proof. exact duration_parts_reread. Qed.
+
+(* ... and the combine rule on two or more re-read parts gives back the magnitude (one part: the part itself) *)
+Theorem C15_duration_recombine : forall {F : Type} {NF : Num F} (vs : vars F) secs tis, in_range secs ->
+  (forall c, In (DMonth, c) (dur_parts secs) -> c < 12) ->
+  Forall2 (fun ti p => exists d, reread_part p = Some d /\ ti_ty ti = Some (TDuration d)) tis (dur_parts secs) ->
+  (2 <= length tis)%nat ->
+  combine_durations vs (dur_fields tis) = Ok (Some (TDuration (Z.abs secs))).
+Proof. intros F NF. exact duration_recombine. Qed.
+
+(* known finding C15-K6: the month count CAN be 12, exactly when the remainder after the whole years reaches 360
+   days, and 12 months re-read are a 365-day year *)
+Theorem C15_twelve_months_iff : forall secs,
+  (exists c, In (DMonth, c) (dur_parts secs) /\ 12 <= c) <-> 12 * MONTH <= Z.abs secs mod YEAR.
+Proof. exact twelve_months_iff. Qed.
+
+Theorem C15_twelve_months_refuted :
+  dur_parts (364 * 86400) = [(DMonth, 12); (DDay, 4)] /\
+  reread_part (DMonth, 12) = Some (365 * 86400) /\ part_secs (DMonth, 12) = 360 * 86400 /\
+  dur_parts (729 * 86400) = [(DYear, 1); (DMonth, 12); (DDay, 4)].
+Proof. exact twelve_months_refuted. Qed.
+
+(* ---- numbers: the reader on the printer's output (Proofs/C15.v section 4; free a x: the character a does not occur
+        in x; tsep_of t: no thousands separator or the one character t; printed neg t d ip fp: sign, ip grouped by the
+        model's own Format.group_loop, fraction) ---- *)
+
+(* format_number writes exactly that, whenever the rendering of |x| ("{:.N}" or "{}") is ip '.' fp or ip alone:
+   every value, digit count, both flags, every one-character decimal separator, any number algebra *)
+Theorem C15_number_shape : forall {F : Type} {NF : Num F} (x : F) t d n rm (rnd : bool) ip fp,
+  (if rnd then ffixed (fabs x) n else fdisplay (fabs x)) = ip ++ match fp with Some f => 46%N :: f | None => [] end ->
+  free 46%N ip ->
+  format_number x (tsep_of t) [d] n rm rnd
+  = Ok (printed (fltb x f0) t d ip
+          (match fp with Some f => if negb (forallb (N.eqb 48) f) || negb rm then Some f else None | None => None end)).
+Proof. intros F NF. exact format_number_shape. Qed.
+
+(* UNBOUNDED: for all strings ip, fp free of the separators (all digit strings), every decimal separator d and
+   thousands separator (one other character that is not '-' or '.', or none) the printed text is normalised by
+   read_decimal to sign ip '.' fp: grouping and convention disappear *)
+Theorem C15_number_normalises : forall {F : Type} {NF : Num F} (cfg : config F) neg t d ip fp,
+  cf_dsep cfg = [d] -> cf_tsep cfg = tsep_of t ->
+  free d ip -> free 45%N [d] ->
+  match t with Some c => free c ip /\ c <> d /\ c <> 45%N /\ c <> 46%N /\
+                         match fp with Some f => free c f | None => True end
+             | None => True end ->
+  match fp with Some f => free d f | None => True end ->
+  read_decimal cfg (printed neg t d ip fp)
+  = fparse ((if neg then [45%N] else []) ++ ip ++ match fp with Some f => 46%N :: f | None => [] end).
+Proof. intros F NF. exact printed_normalises. Qed.
+
+(* the last step under its hypothesis: a value with the same sign test and the same rendering prints alike ... *)
+Theorem C15_number_same_rendering : forall {F : Type} {NF : Num F} (x y : F) tsep dsep n rm (rnd : bool),
+  fltb y f0 = fltb x f0 ->
+  (if rnd then ffixed (fabs y) n else fdisplay (fabs y)) = (if rnd then ffixed (fabs x) n else fdisplay (fabs x)) ->
+  format_number y tsep dsep n rm rnd = format_number x tsep dsep n rm rnd.
+Proof. intros F NF. exact format_number_same_rendering. Qed.
+
+(* ... and the hypothesis at binary64 for the value read back from the printed digits, on a family of 20 values x
+   6 digit counts, by computation; it FAILS for -0.004 at 2 digits (known finding C15-K1) *)
+Theorem C15_number_idempotent_family : forall x n, In x number_family -> In n number_digits ->
+  exists y, fparse (F:=float) ((if fltb x f0 then [45%N] else []) ++ ffixed (fabs x) n) = Some y /\
+            ffixed (fabs y) n = ffixed (fabs x) n /\ fltb y f0 = fltb x f0.
+Proof. exact number_family_idem. Qed.
+
+Theorem C15_number_negative_zero_refuted :
+  idem64 (f64_dec (-4) 3) 2 = false /\ length number_family = 20%nat /\ length number_digits = 6%nat.
+Proof. split; [exact (proj2 number_family_idempotent)|split; reflexivity]. Qed.
+
+(* ---- the whole pipeline on families of every kind: 127 English lines, 31 Turkish lines, 18 lines under each of
+        the other lexable separator conventions, 10 lines x 10 digit settings ---- *)
+Theorem C15_pipeline :
+  (forall l, In l en_family -> Reprintable CK15 DC EN l /\ prints CK15 DC EN l = true) /\
+  (forall l, In l tr_family -> Reprintable CK15 DC TR l /\ prints CK15 DC TR l = true) /\
+  (forall l, In l (sep_family ".") -> Reprintable CK15 (cfg_seps (s ".") (s ",")) EN l /\
+                                      Reprintable CK15 (cfg_seps (s ".") []) EN l) /\
+  (forall l, In l (sep_family ",") -> Reprintable CK15 (cfg_seps (s ",") []) EN l) /\
+  (forall n rm rnd l, In (n, rm, rnd) digit_settings -> In l digit_family ->
+     Reprintable CK15 (cfg_num DC n rm rnd) EN l).
+Proof. exact families_reprintable. Qed.
+
+Theorem C15_pipeline_sizes :
+  length en_family = 127%nat /\ length tr_family = 31%nat /\ length (sep_family ".") = 18%nat /\
+  length digit_family = 10%nat /\ length digit_settings = 10%nat.
+Proof. exact families_sizes. Qed.
+
+(* ---- the known findings C15-K1 .. C15-K10 in the model: each row's line prints the stated text and that text does
+        not print itself again ---- *)
+Theorem C15_refuted : forall cfg lang line out, In (cfg, lang, line, out) refuted_rows ->
+  (exists v, enter CK15 cfg lang line = Some (out, v)) /\ ~ Reprintable CK15 cfg lang line.
+Proof. exact refuted. Qed.
+
+Theorem C15_refuted_outputs :
+  length refuted_rows = 16%nat /\
+  option_map fst (enter CK15 DC EN (s "-0")) = Some (s "0") /\
+  option_map fst (enter CK15 (cfg_seps (s ",") (s " ")) EN (s "1 234,50")) = Some (s "235,50") /\
+  option_map fst (enter CK15 DC EN [163;49;48;44;48;48]%N) = Some (s "0") /\
+  option_map fst (enter CK15 DC EN (s "10,00 kr")) = Some (s "10,00 kr.") /\
+  enter CK15 DC EN [] = None /\
+  option_map fst (enter CK15 DC EN (s "12 months 4 days")) = Some (s "1 year 4 days") /\
+  enter CK15 DC TR (s "12:30:00 UTC") = None /\
+  enter CK15 DC EN (s "13 Sep 2020 12:26:40 UTC") = None /\
+  option_map fst (enter CK15 DC EN (s "1580860800")) = Some (s "1.580.860.800") /\
+  option_map fst (enter CK15 DC EN (s "0xCD")) = Some (s "$0,00").
+Proof. split; [reflexivity|exact refuted_outputs]. Qed.
+
+(* ---- the full statement is false; what holds end to end is the conjunction above ---- *)
+Theorem C15_full_partial :
+  ~ (forall ck cfg lang line, Reprintable ck cfg lang line) /\
+  (forall l, In l en_family -> Reprintable CK15 DC EN l /\ prints CK15 DC EN l = true) /\
+  (forall l, In l tr_family -> Reprintable CK15 DC TR l /\ prints CK15 DC TR l = true).
+Proof. exact full_partial. Qed.
+
+Print Assumptions C15_tests_sound.
+Print Assumptions C15_words_durations.
+Print Assumptions C15_words_units.
+Print Assumptions C15_words_months.
+Print Assumptions C15_words_months_size.
+Print Assumptions C15_zone_words.
+Print Assumptions C15_zone_times.
+Print Assumptions C15_currency_partition.
+Print Assumptions C15_currency_partition_lists.
+Print Assumptions C15_units_pipeline.
+Print Assumptions C15_based.
+Print Assumptions C15_duration.
+Print Assumptions C15_duration_recombine.
+Print Assumptions C15_twelve_months_iff.
+Print Assumptions C15_twelve_months_refuted.
+Print Assumptions C15_number_shape.
+Print Assumptions C15_number_normalises.
+Print Assumptions C15_number_same_rendering.
+Print Assumptions C15_number_idempotent_family.
+Print Assumptions C15_number_negative_zero_refuted.
+Print Assumptions C15_pipeline.
+Print Assumptions C15_pipeline_sizes.
+Print Assumptions C15_refuted.
+Print Assumptions C15_refuted_outputs.
+Print Assumptions C15_full_partial.
